@@ -105,15 +105,25 @@ Lemma update_pipeline_eq : forall c a q s,
   run_pipeline c a q update_pipeline s = cu_body c a PBeforeUpdate PAfterUpdate stmt_update s.
 Proof. reflexivity. Qed.
 
+Lemma delete_before_assoc_off : forall c a s, x_delassoc (c_x c) = 0 -> delete_before_assoc c a s = s.
+Proof.
+  intros c a s H. unfold delete_before_assoc. rewrite H. cbn.
+  destruct (is_nil (s_err s) && negb (is_nil (s_recs s))); reflexivity.
+Qed.
+Lemma preload_cb_off : forall c a s, x_preload (c_x c) = false -> preload_cb c a s = s.
+Proof. intros c a s H. unfold preload_cb. rewrite H. reflexivity. Qed.
+
 Definition del_sched (c : cx) (tags : list Z) : list (list hev) := [ph c PBeforeDelete tags; ph c PAfterDelete tags].
 
 Lemma delete_pipeline_step : forall c a q s,
+  x_delassoc (c_x c) = 0 ->
   goodk (c_shape c) (keys s) ->
   uniform_phase (c_shape c) (c_ty c) (fc_hooks PBeforeDelete) -> uniform_phase (c_shape c) (c_ty c) (fc_hooks PAfterDelete) ->
   hstep (c_fails c) s (run_pipeline c a q delete_pipeline s)
         (gated s (sched_log (del_sched c (map fst (keys s))) (s_k s) (c_fails c))).
 Proof.
-  intros c a q s G U1 U2. unfold run_pipeline, delete_pipeline, del_sched. cbn [fold_left run_cb].
+  intros c a q s XD G U1 U2. unfold run_pipeline, delete_pipeline, del_sched. cbn [fold_left run_cb].
+  rewrite delete_before_assoc_off by exact XD.
   set (tags := map fst (keys s)).
   set (s1 := begin_tx c s).
   pose proof (begin_tx_step (c_fails c) c s) as B. fold s1 in B.
@@ -162,13 +172,15 @@ Qed.
 Definition query_shape_ok (sh : shape) : Prop := wf_shape sh /\ elem_addr_k sh false = true.
 
 Lemma query_pipeline_hooks : forall c a first limit s,
+  x_preload (c_x c) = false ->
   query_shape_ok (c_shape c) -> uniform_phase (c_shape c) (c_ty c) (fc_hooks PAfterFind) -> s_err s = [] ->
   let s' := run_pipeline c a (mk_qarg first limit) query_pipeline s in
   hooks_of (s_tr s') = hooks_of (s_tr s) ++ ph c PAfterFind (loaded c limit (s_tbl s))
   /\ s_k s' = s_k s + len (ph c PAfterFind (loaded c limit (s_tbl s)))
   /\ s_tbl s' = s_tbl s.
 Proof.
-  intros c a first limit s (W & EA) U E0. unfold run_pipeline, query_pipeline. cbn [fold_left run_cb q_first q_limit].
+  intros c a first limit s XP (W & EA) U E0. unfold run_pipeline, query_pipeline. cbn [fold_left run_cb q_first q_limit].
+  rewrite preload_cb_off by exact XP.
   rewrite stmt_query_eq by exact E0. cbv zeta.
   remember (loaded_rows c limit (s_tbl s)) as rows eqn:RW.
   remember (recs_of_rows rows) as recs eqn:RC.
